@@ -30,7 +30,7 @@ def cfg_fn(rng):
     return gen.random_config(rng, p3d=0.15, ellipse3d=True)
 
 
-WEIGHTS = {"add_node": 6, "add_edge": 6, "paint": 6, "swap": 2.5, "update_attrs": 2,
+WEIGHTS = {"ctrl": 0.8, "add_node": 6, "add_edge": 6, "paint": 6, "swap": 2.5, "update_attrs": 2,
            "undo": 1, "redo": 0.7}
 
 
